@@ -146,6 +146,23 @@ def check_case(d, fmt, sort, cfg, tmpdir):
             o1, o2 = model.slim_optimize(), m2.slim_optimize()
             if not df and not (o1 == o2 or (o1 != o1 and o2 != o2) or abs(o1 - o2) <= 1e-9 * max(1, abs(o1))):
                 problems.append(("optimum differs", f"{o1} vs {o2}"))
+            if not problems and "bench_op" not in d:
+                # save, edit in place, save again: the second document describes the edited model (whatever a writer
+                # remembered at the first save is stale now), and the model loaded from the first document is unaffected
+                try:
+                    iomodels.edit_in_place(model)
+                    edited = iomodels.content_view(model, with_groups=groups)
+                    m4 = roundtrip(model, fmt, sort, tmpdir)
+                    d4 = observe.diff(edited, iomodels.content_view(m4, with_groups=groups))
+                    if d4:
+                        problems.append(("saved again after in-place edits: content differs at " + _norm(observe.first_path(d4)),
+                                         "\n".join(d4)))
+                    d5 = observe.diff(after, iomodels.content_view(m2, with_groups=groups))
+                    if d5:
+                        problems.append(("editing the saved model changed the model loaded earlier at " +
+                                         _norm(observe.first_path(d5)), "\n".join(d5)))
+                except Exception as exc:
+                    problems.append(("save after in-place edits raised " + type(exc).__name__, repr(exc)))
             if not problems:
                 try:
                     m3 = roundtrip(m2, fmt, sort, tmpdir)
